@@ -160,6 +160,14 @@ func (ts *TS) runFn(fr *Frame, initA string, env Env, trail []string) []TSOut {
 					}
 				}
 				us = append(us, upd{envKey{phi, -1, ""}, kv, okc})
+				// a φ that takes a non-constant value over a forward edge: remember which edge this path came in
+				// on, so rules can name the value (key index -2 is never read by the evaluator)
+				back := it.b == it.pred || it.b.Dominates(it.pred)
+				if !okc && pi >= 0 && !back {
+					us = append(us, upd{envKey{phi, -2, ""}, constant.MakeInt64(int64(pi)), true})
+				} else {
+					us = append(us, upd{envKey{phi, -2, ""}, nil, false})
+				}
 			}
 			for _, u := range us {
 				if u.ok {
